@@ -14,6 +14,7 @@ import JubakoModel.Lemmas.ContentFile
 import JubakoModel.Lemmas.FuncsBytes
 import JubakoModel.Lemmas.FuncsContent
 import JubakoModel.Lemmas.FuncsParse
+import JubakoModel.Lemmas.FuncsOpen
 
 namespace Jubako
 
@@ -130,5 +131,16 @@ theorem c01_cluster_step_is_source_step (c : Cluster) (d : Bytes) (h : c.blobs.l
     Generated.clusterAddContent (endOffsets c.blobs 0) c.idx d.length =
       some (endOffsets (c.blobs ++ [d]) 0, (c.idx, c.blobs.length)) :=
   gen_clusterAddContent c d h
+
+/-- **A content pack is opened as the source opens it**: `contentOpen` (the first step of `contentGet`) is
+    `ContentPack::new` as translated from `reader/content_pack/mod.rs` on every run: pack header of kind
+    "content", content-pack header, then the content-info table (4 bytes per content) and the cluster-pointer
+    table (8 bytes per cluster), each read as one checked block. -/
+theorem c01_content_open_is_source_open (f : Bytes) :
+    contentOpen f =
+      Generated.contentPackNew ((readBlock f 0 60).bind fun hd => PackHeader.decode hd)
+        ((readBlock f 64 60).bind fun cb => ContentHeader.decode cb)
+        (fun w pos count => readBlock f pos (w * count)) :=
+  gen_contentOpen f
 
 end Jubako
